@@ -11,6 +11,41 @@ from sa.sm import call_kw, const_str, dotted, find_calls, norm
 from . import common
 
 
+def missing_values_discipline(ctx: Ctx, rule: str):
+    sm = ctx.sm
+    cgc = sm.cls("codegen/base.py", "CodeGenerator")
+    f = cgc.methods["missing_values"]
+    loops = [n for n in f.node.body if isinstance(n, ast.For)]
+    ctx.check(len(loops) == 2, rule, f.key("two-loops"), "one loop over states+parameters, one over the sorted assignments", f"missing_values has {len(loops)} top-level loops", f.where())
+    if len(loops) == 2:
+        l1, l2 = loops
+        ctx.check(norm(l1.iter) == "self.ode.states + self.ode.parameters", rule, f.key("atoms-loop"), "states and parameters can be exported", f"missing_values: first loop iterates {norm(l1.iter)} (a requested parameter or state of another kind would never be stored: its slot stays 0)", f.where(l1))
+        ctx.check(norm(l2.iter) == "self.ode.sorted_assignments(remove_unused=False)", rule, f.key("assignments-loop"), "all assignments, never filtered", f"missing_values: second loop iterates {norm(l2.iter)} (an exported intermediate that nothing else uses would be dropped)", f.where(l2))
+        for idx, l in enumerate((l1, l2)):
+            if not isinstance(l.target, ast.Name):
+                ctx.fail(rule, f.key(f"loop{idx + 1}::shape"), f"missing_values: loop {idx + 1} no longer iterates the model's atoms one by one ({norm(l.target)} in {norm(l.iter)})", f.where(l))
+                continue
+            v = l.target.id
+            for p in te.enumerate_paths(l.body):
+                req = [pol for a, pol in p.lits if a == f"{v}.name in values"]
+                stores = [i for i, st in enumerate(p.effects) if isinstance(st, ast.Expr) and f"values_idx[values[{v}.name]]" in norm(st) and f"{v}.symbol" in norm(st)]
+                incs = [i for i, st in enumerate(p.effects) if isinstance(st, ast.AugAssign) and norm(st.target) == "n"]
+                defs = [i for i, st in enumerate(p.effects) if isinstance(st, ast.Expr) and f"self._doprint({v}.symbol, {v}.expr" in norm(st)]
+                key = f.key(f"loop{idx + 1}::{p.pred()}")
+                if req and req[0]:
+                    ok = len(stores) == 1 and len(incs) == 1 and incs[0] > stores[0] and (idx == 0 or (defs and defs[0] < stores[0]))
+                    ctx.check(ok, rule, key, "requested: defined, stored at values[values[name]], counted once", f"missing_values path [{p.pred()}]: stores={len(stores)}, increments={len(incs)}, definition first={bool(defs)}", f.where(l))
+                    if p.exit == "break":
+                        ctx.check(bool(stores), rule, key + "::break", "early exit only after the store", "missing_values breaks before the requested value is stored", f.where(l))
+                elif req:
+                    ctx.check(not stores and not incs, rule, key, "not requested: nothing stored, counter untouched", f"missing_values path [{p.pred()}]: stores or counts a name that was not requested", f.where(l))
+        brk = [n for n in ast.walk(l2) if isinstance(n, ast.If) and any(isinstance(s, ast.Break) for s in n.body)]
+        ctx.check(bool(brk) and norm(brk[0].test) == "n >= N" and brk[0] is l2.body[-1], rule, f.key("early-exit"), "stop once all requested values are stored (n >= N), tested after the store", "missing_values: the early exit is not `if n >= N: break` at the end of the loop body", f.where(l2))
+        nd = {norm(n.targets[0]): norm(n.value) for n in f.node.body if isinstance(n, ast.Assign)}
+        ctx.check(nd.get("N") == "len(values)" and nd.get("n") == "0", rule, f.key("counter-init"), "N = len(values), n = 0", f"missing_values: N = {nd.get('N')}, n = {nd.get('n')}", f.where())
+
+
+
 def run(ctx: Ctx):
     sm = ctx.sm
     ctx.assume("numerical agreement of the sub-models with the full model is NOT decided")
@@ -31,16 +66,44 @@ def run(ctx: Ctx):
     ctx.check(n_sym == 4, "R13.a", ga.key("symbols-of-all-kinds"), "parameters, states, intermediates and state derivatives are defined symbols", f"gather_atoms registers symbols for {n_sym} of the 4 atom kinds", ga.where())
 
     ctx.rule("R13.b", "sibling agreement: rhs, monitor_values, missing_values and scheme all unpack the missing variables, append the formal under the same condition and hand the block to the template; both python templates splice it before the body", floor=16)
+    from . import util
+
     for mname in ("rhs", "monitor_values", "missing_values", "scheme"):
-        f = cgc.methods[mname]
-        a1 = any(isinstance(n, ast.Assign) and norm(n.targets[0]) == "missing_variables" and norm(n.value) == "self._missing_variables_assignments()" for n in ast.walk(f.node))
-        ctx.check(a1, "R13.b", f.key("unpack-block"), "missing_variables = self._missing_variables_assignments()", f"CodeGenerator.{mname} does not build the missing-variables unpacking block", f.where())
-        ifs = [n for n in ast.walk(f.node) if isinstance(n, ast.If) and norm(n.test) == "self._missing_variables"]
-        a2 = bool(ifs) and any(isinstance(s, ast.AugAssign) and norm(s.target) == "arguments" and norm(s.value).replace('"', "'") == "['missing_variables']" for s in ifs[0].body)
-        ctx.check(a2, "R13.b", f.key("formal"), "formal `missing_variables` appended iff the model has missing variables", f"CodeGenerator.{mname} does not append the `missing_variables` formal under `if self._missing_variables`", f.where())
-        tc = [c for c in find_calls(f.node, "template.method")]
-        a3 = bool(tc) and call_kw(tc[0], "missing_variables") is not None and norm(call_kw(tc[0], "missing_variables")) == "missing_variables" and norm(call_kw(tc[0], "args")).replace('"', "'") == "', '.join(arguments)"
-        ctx.check(a3, "R13.b", f.key("template"), "block and formals reach the template", f"CodeGenerator.{mname} does not pass missing_variables= / args= to the method template", f.where())
+        f = util.nff(ctx, cgc.methods[mname])
+        tc = util.template_method_call(f)
+        if tc is None:
+            ctx.fail("R13.b", f.key("template"), f"CodeGenerator.{mname} no longer hands its parts to template.method", f.where())
+            continue
+        mv = call_kw(tc, "missing_variables")
+        a1 = mv is not None and "_missing_variables_assignments(" in util.ctext(f, mv)
+        ctx.check(a1, "R13.b", f.key("unpack-block"), "the template's missing_variables block is self._missing_variables_assignments()", f"CodeGenerator.{mname} does not hand the missing-variables unpacking block to the template (missing_variables={util.ctext(f, mv) if mv is not None else None})", f.where(tc))
+        # the formal: the constant 'missing_variables' is added to the argument list iff the model has missing variables
+        adders = []
+        for n in ast.walk(f.node):
+            lst, val = None, None
+            if isinstance(n, ast.AugAssign) and isinstance(n.op, ast.Add) and isinstance(n.target, ast.Name):
+                lst, val = n.target.id, n.value
+            elif isinstance(n, ast.Call) and isinstance(n.func, ast.Attribute) and n.func.attr in ("append", "extend") and isinstance(n.func.value, ast.Name) and n.args:
+                lst, val = n.func.value.id, n.args[0]
+            elif isinstance(n, ast.Assign) and len(n.targets) == 1 and isinstance(n.targets[0], ast.Name) and isinstance(n.value, ast.BinOp) and isinstance(n.value.op, ast.Add):
+                lst, val = n.targets[0].id, n.value.right
+            if lst and val is not None and "missing_variables" in [c.value for c in ast.walk(val) if isinstance(c, ast.Constant)]:
+                stmt = n
+                chain = None
+                for st in common.stmts_of(f.node):
+                    if st is n or any(x is n for x in ast.walk(st) if not isinstance(st, (ast.If, ast.For, ast.While, ast.With, ast.Try))):
+                        chain = common.cond_chain(f.node, st)
+                        break
+                adders.append((lst, chain or []))
+        okf = False
+        args_kw = call_kw(tc, "args")
+        for lst, chain in adders:
+            conds = [util.ctext(f, ast.parse(c, mode="eval").body) for c, pol in chain if pol and not c.startswith(("loop", "except"))]
+            guarded = any(c in ("self._missing_variables", "len(self._missing_variables) > 0", "bool(self._missing_variables)", "self._missing_variables != {}") for c in conds)
+            if guarded and args_kw is not None and util.depends_on(f.node, args_kw, lst):
+                okf = True
+        ctx.check(okf, "R13.b", f.key("formal"), "formal `missing_variables` appended iff the model has missing variables, and it reaches the template's args", f"CodeGenerator.{mname} does not add the `missing_variables` formal (under `if self._missing_variables`) to the argument list handed to the template", f.where())
+        ctx.check(args_kw is not None and mv is not None, "R13.b", f.key("template"), "block and formals reach the template", f"CodeGenerator.{mname} does not pass missing_variables= / args= to the method template", f.where())
     ma = cgc.methods["_missing_variables_assignments"]
     gens = [n for n in ast.walk(ma.node) if isinstance(n, ast.ListComp) and isinstance(n.elt, ast.Call) and norm(n.elt.func) == "self._doprint"]
     okm = False
@@ -61,39 +124,13 @@ def run(ctx: Ctx):
         sk = T.skeleton(short, "method")
         p1, p2, p3 = sk.raw.find("{indent_parameters}"), sk.raw.find("{indent_missing_variables}"), sk.raw.find("{indent_values}")
         ctx.check(0 <= p1 < p2 < p3, "R13.b", sk.func.key("splice"), "missing-variable block sits between the parameters and the body", f"{short} method template: the missing-variables block is not spliced before the body", sk.func.where())
-        loc = {norm(n.targets[0]): norm(n.value).replace('"', "'") for n in ast.walk(sk.func.node) if isinstance(n, ast.Assign)}
-        ctx.check(loc.get("indent_missing_variables") == "indent(missing_variables, '    ')", "R13.b", sk.func.key("block"), "the block is the `missing_variables` argument", f"{short} method template: indent_missing_variables is {loc.get('indent_missing_variables')}", sk.func.where())
+        # the spliced placeholder derives from the template's `missing_variables` parameter
+        ph = [n for n in ast.walk(sk.func.node) if isinstance(n, ast.FormattedValue) and norm(n.value) == "indent_missing_variables"]
+        okb = bool(ph) and util.depends_on(sk.func.node, ph[0].value, "missing_variables")
+        ctx.check(okb, "R13.b", sk.func.key("block"), "the block is the `missing_variables` argument", f"{short} method template: the spliced block does not derive from the `missing_variables` argument", sk.func.where())
 
     ctx.rule("R13.c", "missing_values: every requested name among states, parameters and all assignments is stored at its requested slot; the counter advances exactly on stores; the early exit follows the store", floor=6)
-    f = cgc.methods["missing_values"]
-    loops = [n for n in f.node.body if isinstance(n, ast.For)]
-    ctx.check(len(loops) == 2, "R13.c", f.key("two-loops"), "one loop over states+parameters, one over the sorted assignments", f"missing_values has {len(loops)} top-level loops", f.where())
-    if len(loops) == 2:
-        l1, l2 = loops
-        ctx.check(norm(l1.iter) == "self.ode.states + self.ode.parameters", "R13.c", f.key("atoms-loop"), "states and parameters can be exported", f"missing_values: first loop iterates {norm(l1.iter)} (a requested parameter or state of another kind would never be stored: its slot stays 0)", f.where(l1))
-        ctx.check(norm(l2.iter) == "self.ode.sorted_assignments(remove_unused=False)", "R13.c", f.key("assignments-loop"), "all assignments, never filtered", f"missing_values: second loop iterates {norm(l2.iter)} (an exported intermediate that nothing else uses would be dropped)", f.where(l2))
-        for idx, l in enumerate((l1, l2)):
-            if not isinstance(l.target, ast.Name):
-                ctx.fail("R13.c", f.key(f"loop{idx + 1}::shape"), f"missing_values: loop {idx + 1} no longer iterates the model's atoms one by one ({norm(l.target)} in {norm(l.iter)})", f.where(l))
-                continue
-            v = l.target.id
-            for p in te.enumerate_paths(l.body):
-                req = [pol for a, pol in p.lits if a == f"{v}.name in values"]
-                stores = [i for i, st in enumerate(p.effects) if isinstance(st, ast.Expr) and f"values_idx[values[{v}.name]]" in norm(st) and f"{v}.symbol" in norm(st)]
-                incs = [i for i, st in enumerate(p.effects) if isinstance(st, ast.AugAssign) and norm(st.target) == "n"]
-                defs = [i for i, st in enumerate(p.effects) if isinstance(st, ast.Expr) and f"self._doprint({v}.symbol, {v}.expr" in norm(st)]
-                key = f.key(f"loop{idx + 1}::{p.pred()}")
-                if req and req[0]:
-                    ok = len(stores) == 1 and len(incs) == 1 and incs[0] > stores[0] and (idx == 0 or (defs and defs[0] < stores[0]))
-                    ctx.check(ok, "R13.c", key, "requested: defined, stored at values[values[name]], counted once", f"missing_values path [{p.pred()}]: stores={len(stores)}, increments={len(incs)}, definition first={bool(defs)}", f.where(l))
-                    if p.exit == "break":
-                        ctx.check(bool(stores), "R13.c", key + "::break", "early exit only after the store", "missing_values breaks before the requested value is stored", f.where(l))
-                elif req:
-                    ctx.check(not stores and not incs, "R13.c", key, "not requested: nothing stored, counter untouched", f"missing_values path [{p.pred()}]: stores or counts a name that was not requested", f.where(l))
-        brk = [n for n in ast.walk(l2) if isinstance(n, ast.If) and any(isinstance(s, ast.Break) for s in n.body)]
-        ctx.check(bool(brk) and norm(brk[0].test) == "n >= N" and brk[0] is l2.body[-1], "R13.c", f.key("early-exit"), "stop once all requested values are stored (n >= N), tested after the store", "missing_values: the early exit is not `if n >= N: break` at the end of the loop body", f.where(l2))
-        nd = {norm(n.targets[0]): norm(n.value) for n in f.node.body if isinstance(n, ast.Assign)}
-        ctx.check(nd.get("N") == "len(values)" and nd.get("n") == "0", "R13.c", f.key("counter-init"), "N = len(values), n = 0", f"missing_values: N = {nd.get('N')}, n = {nd.get('n')}", f.where())
+    missing_values_discipline(ctx, "R13.c")
 
     ctx.rule("R13.d", "model - C drops exactly component C; C.to_ode() keeps exactly C", floor=2)
     sub = sm.func("ode.py", "ODE.__sub__")
